@@ -312,3 +312,64 @@ theorem fetchBad_fails (f : Fetch) (h : fetchBad f = true) : fetchFails f = true
         simp [fetchBad, h4, h5] at h
 
 end AGH.C15
+
+namespace AGH.C15
+open AGH AGH.Bytes
+
+/-- The list at index `i` after a `tryRefreshFilters` call. -/
+theorem refreshStep_flt (rq : Req) (ls : List LState) (ins : List (Bool × Fetch)) (i : Nat)
+    (l l' : LState) (due : Bool) (f : Fetch) (hl : ls[i]? = some l) (hi : ins[i]? = some (due, f))
+    (hl' : (refreshStep rq ls ins)[i]? = some l') :
+    l'.flt = if attempted rq l due then refreshOne l.flt f else l.flt := by
+  have hp := phase1_get rq ls ins i l due f hl hi
+  unfold refreshStep at hl'
+  simp only [List.getElem?_map] at hl'
+  cases hg : (phase1 rq ls ins)[i]? with
+  | none => rw [hg] at hp; simp at hp
+  | some r =>
+    rw [hg] at hp hl'
+    simp only [Option.map_some, Option.some.injEq] at hp hl'
+    rw [← hl', reload_flt, hp]
+    split <;> rfl
+
+end AGH.C15
+
+namespace AGH.C15
+open AGH AGH.Bytes
+
+theorem setDownload_cases (old flt2 : Flt) (changed : Bool) (f : Fetch) :
+    (∃ c k out, updateIntl flt2.checksum f = some (c, k, out) ∧
+      setDownload old flt2 changed f = ⟨⟨true, c, k, some out⟩, changed, .ok true⟩) ∨
+    (updateIntl flt2.checksum f = none ∧ fetchFails f = true ∧
+      setDownload old flt2 changed f = ⟨⟨old.enabled, old.count, flt2.checksum, old.file⟩, false, .err⟩) ∨
+    (updateIntl flt2.checksum f = none ∧ fetchFails f = false ∧
+      setDownload old flt2 changed f = ⟨flt2, changed, .ok false⟩) := by
+  unfold setDownload
+  cases hu : updateIntl flt2.checksum f with
+  | some p => obtain ⟨c, k, out⟩ := p; exact Or.inl ⟨c, k, out, rfl, rfl⟩
+  | none =>
+    cases hff : fetchFails f with
+    | true => exact Or.inr (Or.inl ⟨rfl, rfl, by simp⟩)
+    | false => exact Or.inr (Or.inr ⟨rfl, rfl, by simp⟩)
+
+/-- The shapes of `setProps`: refused duplicate; list disabled; nothing to
+download; or a download against the list `flt2` (count and checksum zeroed
+after a URL change). -/
+theorem setProps_cases (flt : Flt) (rq : SetReq) (f : Fetch) :
+    (setProps flt rq f = ⟨flt, false, .err⟩) ∨
+    (rq.enabled = false ∧ ∃ r, setProps flt rq f = ⟨⟨false, 0, 0, flt.file⟩, rq.changed, .ok r⟩) ∨
+    (rq.enabled = true ∧ rq.changed = false ∧
+      setProps flt rq f = ⟨⟨true, flt.count, flt.checksum, flt.file⟩, false, .ok false⟩) ∨
+    (rq.enabled = true ∧ setProps flt rq f =
+      setDownload flt ⟨true, if rq.changed then 0 else flt.count, if rq.changed then 0 else flt.checksum, flt.file⟩
+        rq.changed f) := by
+  obtain ⟨fe, cnt, ck, file⟩ := flt
+  obtain ⟨changed, dup, en⟩ := rq
+  cases changed <;> cases dup <;> cases en <;> cases fe <;>
+    first
+    | exact Or.inl rfl
+    | exact Or.inr (Or.inl ⟨rfl, _, rfl⟩)
+    | exact Or.inr (Or.inr (Or.inl ⟨rfl, rfl, rfl⟩))
+    | exact Or.inr (Or.inr (Or.inr ⟨rfl, rfl⟩))
+
+end AGH.C15
